@@ -316,8 +316,9 @@ class TrajectoryCalc:
             height = t.height >> Distance.Foot
             zero_finding_error = math.fabs(height - height_at_zero)
             if zero_finding_error > _cZeroFindingAccuracy:
-                # Adjust barrel elevation to close height at zero distance
-                self.barrel_elevation -= (height - height_at_zero) / zero_distance
+                # Adjust barrel elevation to close height at zero distance.  d(height)/d(elevation) grows with 1/cos^2 of
+                # the sight line's inclination; without that factor the iteration diverges for look angles beyond 45 degrees
+                self.barrel_elevation -= (height - height_at_zero) / zero_distance * math.cos(self.look_angle) ** 2
             else:  # last barrel_elevation hit zero!
                 break
             iterations_count += 1
